@@ -1,9 +1,16 @@
 package verifh
 
 import (
+	"context"
+	"database/sql"
+	"database/sql/driver"
+	"errors"
+	"reflect"
+	"strconv"
 	"time"
 
 	"gorm.io/gorm"
+	"gorm.io/gorm/schema"
 )
 
 // Plain model: integer key, string, ints, permission tags.
@@ -153,4 +160,157 @@ type StaffPet struct {
 	ID      uint
 	StaffID uint
 	Name    string
+}
+
+// ---- one model per field kind for the store/load round trip (C03)
+
+type KBool struct {
+	ID uint
+	V  bool
+}
+type KInt8 struct {
+	ID uint
+	V  int8
+}
+type KInt16 struct {
+	ID uint
+	V  int16
+}
+type KInt32 struct {
+	ID uint
+	V  int32
+}
+type KInt64 struct {
+	ID uint
+	V  int64
+}
+type KInt struct {
+	ID uint
+	V  int
+}
+type KUint8 struct {
+	ID uint
+	V  uint8
+}
+type KUint16 struct {
+	ID uint
+	V  uint16
+}
+type KUint32 struct {
+	ID uint
+	V  uint32
+}
+type KUint64 struct {
+	ID uint
+	V  uint64
+}
+type KString struct {
+	ID uint
+	V  string
+}
+type KBytes struct {
+	ID uint
+	V  []byte
+}
+type KPtrInt struct {
+	ID uint
+	V  *int
+}
+type KPtrString struct {
+	ID uint
+	V  *string
+}
+type KNullInt struct {
+	ID uint
+	V  sql.NullInt64
+}
+type KNullString struct {
+	ID uint
+	V  sql.NullString
+}
+type KTime struct {
+	ID uint
+	V  time.Time
+}
+type KUnixInt struct {
+	ID uint
+	V  int64 `gorm:"serializer:unixtime;type:time"`
+}
+type KUnixUint struct {
+	ID uint
+	V  uint `gorm:"serializer:unixtime;type:time"`
+}
+type KRenamed struct {
+	ID uint
+	V  int `gorm:"column:other_name"`
+}
+
+// custom scanner / valuer: stores an int as its decimal text
+type TextInt struct{ N int }
+
+func (t TextInt) Value() (driver.Value, error) { return strconv.Itoa(t.N), nil }
+func (t *TextInt) Scan(v interface{}) error {
+	switch x := v.(type) {
+	case string:
+		n, err := strconv.Atoi(x)
+		t.N = n
+		return err
+	case []byte:
+		n, err := strconv.Atoi(string(x))
+		t.N = n
+		return err
+	}
+	return errors.New("TextInt: unsupported source")
+}
+
+type KCustom struct {
+	ID uint
+	V  TextInt
+}
+
+// key back-fill
+type Seq3 struct {
+	ID   uint `gorm:"autoIncrementIncrement:3"`
+	Name string
+}
+
+// self-serializing field type (pointer-receiver Scan, value-receiver Value)
+// whose representation is filled in place
+type CSV struct{ Items []string }
+
+func (c *CSV) Scan(ctx context.Context, field *schema.Field, dst reflect.Value, dbValue interface{}) error {
+	var s string
+	switch x := dbValue.(type) {
+	case string:
+		s = x
+	case []byte:
+		s = string(x)
+	default:
+		return errors.New("CSV: unsupported source")
+	}
+	c.Items = c.Items[:0]
+	start := 0
+	for i := 0; i <= len(s); i++ {
+		if i == len(s) || s[i] == ',' {
+			c.Items = append(c.Items, s[start:i])
+			start = i + 1
+		}
+	}
+	return nil
+}
+
+func (c CSV) Value(ctx context.Context, field *schema.Field, dst reflect.Value, fieldValue interface{}) (interface{}, error) {
+	out := ""
+	for i, it := range c.Items {
+		if i > 0 {
+			out += ","
+		}
+		out += it
+	}
+	return out, nil
+}
+
+type KSelf struct {
+	ID uint
+	V  CSV
 }
